@@ -44,7 +44,7 @@ def handleSite (args : List Json) : Json :=
   match args with
   | [s, x, st, obs] =>
     match (asStr? s).bind siteOfName?, (asStr? x).bind Cls.ofName?, asBool? st, asStr? obs with
-    | some s, some x, some st, some obs => verdict (throughRenderLoop st (runSite s x)) obs
+    | some s, some x, some st, some obs => verdict (runSiteMode st s x) obs
     | _, _, _, _ => jerr "bad-site-args"
   | _ => jerr "bad-args"
 
